@@ -250,6 +250,8 @@ class FaceVariable:
         elif (type(self.domain) is CylindricalGrid1D)\
          or (type(self.domain) is CylindricalGrid2D):
             raise AttributeError('thetavalue does not exist for 1D and 2D cylindrical grids') 
+        elif (type(self.domain) is SphericalGrid1D):
+            raise AttributeError('thetavalue does not exist for 1D spherical grids')
         else:
             raise NotImplementedError("FaceVariable not implemented for mesh type '{0:s}'".\
                             format(self.domain.__class__.__name__))        
@@ -267,6 +269,8 @@ class FaceVariable:
         elif (type(self.domain) is CylindricalGrid1D)\
          or (type(self.domain) is CylindricalGrid2D):
             raise AttributeError('thetavalue does not exist for 1D and 2D cylindrical grids') 
+        elif (type(self.domain) is SphericalGrid1D):
+            raise AttributeError('thetavalue does not exist for 1D spherical grids')
         else:
             raise NotImplementedError("FaceVariable not implemented for mesh type '{0:s}'".\
                             format(self.domain.__class__.__name__))      
@@ -285,6 +289,8 @@ class FaceVariable:
           or (type(self.domain) is PolarGrid2D)\
           or (type(self.domain) is CylindricalGrid3D):
             raise AttributeError('phivalue does not exist for cylindrical and polar grids') 
+        elif (type(self.domain) is SphericalGrid1D):
+            raise AttributeError('phivalue does not exist for 1D spherical grids')
         else:
             raise NotImplementedError("FaceVariable not implemented for mesh type '{0:s}'".\
                             format(self.domain.__class__.__name__))        
@@ -302,6 +308,8 @@ class FaceVariable:
           or (type(self.domain) is PolarGrid2D)\
           or (type(self.domain) is CylindricalGrid3D):
             raise AttributeError('phivalue does not exist for cylindrical and polar grids') 
+        elif (type(self.domain) is SphericalGrid1D):
+            raise AttributeError('phivalue does not exist for 1D spherical grids')
         else:
             raise NotImplementedError("FaceVariable not implemented for mesh type '{0:s}'".\
                             format(self.domain.__class__.__name__))   
